@@ -219,6 +219,13 @@ def documented_lists(W):
         out.append(("top+bottom", T_uint(2), [(W - 1, 1), (0, 1)]))
         out.append(("bottom+top", T_uint(2), [(0, 1), (W - 1, 1)]))
         out.append(("signed across", T_int(8), [(W - 4, 4), (0, 4)]))
+    if W >= 8:
+        out.append(("range then single bits counting down", T_uint(8), [(4, 4), (3, 1), (2, 1), (1, 1), (0, 1)]))
+        out.append(("descending single bits with gaps", T_uint(4), [(6, 1), (4, 1), (2, 1), (0, 1)]))
+        out.append(("single bit followed by a range", T_uint(5), [(W - 1, 1), (0, 4)]))
+        out.append(("two far single bits descending", T_uint(2), [(W - 1, 1), (7, 1)]))
+    if W >= 32:
+        out.append(("riscv J imm", T_uint(20), [(21, 10), (20, 1), (12, 8), (31, 1)]))
     if W >= 3:
         out.append(("ends", T_uint(2), [(0, 1), (W - 1, 1)]))
         out.append(("mid single in list", T_uint(1), [(W // 2, 1)]))
@@ -490,6 +497,12 @@ def universal_layout(rnd, W=None, tag="universal random struct"):
                 f.arg_order = "ars"
             if rnd.random() < 0.2:
                 f.doc = f"field number {idx}: documentation is forwarded to the accessors"
+            if rnd.random() < 0.08 and f.access:
+                f.attr_split = rnd.choice(["access_last", "access_first"])
+            if rnd.random() < 0.05:
+                f.doc_hidden = True
+            if rnd.random() < 0.08:
+                f.zero_pad = True
             if rnd.random() < 0.06:
                 kw = rnd.choice(["type", "match", "loop", "struct", "fn"])
                 if kw not in [x.name for x in fields]:
@@ -513,6 +526,8 @@ def universal_layout(rnd, W=None, tag="universal random struct"):
         L.derives = rnd.choice(["PartialEq, Eq", "Debug, PartialEq", "Debug"])
     if dflt and rnd.random() < 0.15:
         L.trailing_comma = True
+    if dflt and rnd.random() < 0.1:
+        L.via_macro = True
     if not L.rule_valid():
         return universal_layout(rnd, W, tag)
     return L
